@@ -147,6 +147,8 @@ def check(ctx, rng, kind, ptr, endian, align, compiled):
     if got != val:
         viol("value", "pointer-integer-value-differs-from-stored-unsigned-integer", data=data, got=got, want=val)
         return
+    ctx.sample({"definition": case["text"], "config": cfgd, "structure_at": struct_at, "stream": data.hex(),
+                "addresses": [t[0] for t in targets], "expected_targets": [repr(t[1])[:60] for t in targets]}, limit=2)
     ptrs = [(o.p, targets[0]), (o.arr[0], targets[1]), (o.arr[1], targets[2])]
     for idx, (p, (addr, want)) in enumerate(ptrs):
         ctx.evaluation((case["text"], tuple(sorted(cfgd.items())), data.hex(), idx))
